@@ -330,3 +330,189 @@ Qed.
 (* non-vacuity: a 2-byte file cut to 3 raw bytes is such a fragment *)
 Example bad_fragment_inhabited : bad_fragment [7; 8; 9].
 Proof. unfold bad_fragment. vm_compute. split; discriminate. Qed.
+
+(* ====================================================================== *)
+(* corruption by one burst of at most 32 bits inside one block            *)
+(* ====================================================================== *)
+From BLB Require Import Lib.CRCProofs.
+
+Definition chunk_of (r : list byte) (k : N) : list byte := raw_read r (HL + BL * k) BL.
+
+(* block k of r is a sound block: non-empty data followed by its little-endian CRC-32C *)
+Definition sound_block (r : list byte) (k : N) : Prop :=
+  exists data, data <> [] /\ chunk_of r k = data ++ le32 (crc32c data).
+
+(* r' is r with the stored bytes of block k hit by one burst of <= 32 bits (anywhere in data ++ checksum);
+   all other blocks are untouched *)
+Definition burst_in_block (r r' : list byte) (k : N) : Prop :=
+  (forall j, j <> k -> chunk_of r' j = chunk_of r j) /\
+  burst_error (bits_of (chunk_of r k)) (bits_of (chunk_of r' k)) /\
+  Forall (fun x => x < 256) (chunk_of r' k).
+
+Lemma Forall_drop {A} (P : A -> Prop) (l : list A) : forall n, Forall P l -> Forall P (drop n l).
+Proof.
+  induction l as [|x l IH]; intros n H; cbn [drop]; [constructor|].
+  destruct (n =? 0); [exact H|]. apply IH. now inversion H.
+Qed.
+
+Lemma burst_block_check r r' k :
+  sound_block r k -> burst_in_block r r' k ->
+  let c' := chunk_of r' k in
+  CL < lenN c' /\ (of_le (drop (lenN c' - CL) c') =? crc32c_m (take (lenN c' - CL) c')) = false.
+Proof.
+  intros (data & Hne & Hc) (_ & Hb & HF). cbn zeta.
+  set (c' := chunk_of r' k) in *.
+  assert (Hlen : lenN c' = lenN data + 4).
+  { destruct Hb as (e & _ & Hle & Hx).
+    assert (Hl : length (bits_of c') = length (bits_of (chunk_of r k))).
+    { rewrite Hx. apply xorl_length. symmetry. exact Hle. }
+    rewrite !bits_of_length, Hc, app_length in Hl. cbn [le32 length] in Hl.
+    rewrite !lenN_length. lia. }
+  assert (Hd : 0 < lenN data).
+  { destruct data; [contradiction|]. rewrite lenN_cons. lia. }
+  rewrite CL_val. split; [lia|].
+  replace (lenN c' - 4) with (lenN data) by lia.
+  rewrite crc32c_m_correct. apply N.eqb_neq. intros Heq.
+  refine (crc_detects_burst_raw data (take (lenN data) c') (drop (lenN data) c') _ _ _ (eq_sym Heq)).
+  - apply Nat2N.inj. rewrite <- lenN_length, lenN_drop. lia.
+  - apply Forall_drop, HF.
+  - rewrite take_drop. rewrite <- Hc. exact Hb.
+Qed.
+
+Lemma read_block_burst r r' k :
+  sound_block r k -> burst_in_block r r' k ->
+  fst (read_block r' k) = E_CORRUPT /\ read_block_inplace r' k = (E_CORRUPT, []).
+Proof.
+  intros Hs Hb. pose proof (burst_block_check r r' k Hs Hb) as [Hl Hc]. cbn zeta in *.
+  unfold read_block, read_block_inplace. fold (chunk_of r' k).
+  replace (lenN (chunk_of r' k) =? 0) with false by (symmetry; apply N.eqb_neq; lia).
+  replace (lenN (chunk_of r' k) <=? CL) with false by (symmetry; apply N.leb_gt; lia).
+  rewrite Hc. split; reflexivity.
+Qed.
+
+(* a read whose first byte lies in the altered block fails with corruption and returns no bytes *)
+Lemma read_at_burst_first r r' k off len cap :
+  sound_block r k -> burst_in_block r r' k -> 0 < len -> off / DL = k ->
+  read_at r' off len cap = ([], E_CORRUPT).
+Proof.
+  intros Hs Hb Hlen Hk. rewrite inplace_equiv_lemma. unfold read_at, read_fuel.
+  replace (N.to_nat (len / DL) + 4)%nat with (S (N.to_nat (len / DL) + 3)) by lia.
+  cbn [read_loop].
+  replace (len =? 0) with false by (symmetry; apply N.eqb_neq; lia).
+  replace ((off mod DL =? 0) && (BL <=? 0)) with false
+    by (rewrite BL_val; cbn; symmetry; apply andb_false_r).
+  rewrite Hk. destruct (read_block_burst r r' k Hs Hb) as [H1 _].
+  destruct (read_block r' k) as [e b]. cbn [fst] in H1. subst e. reflexivity.
+Qed.
+
+(* frame: ReadAt depends on the raw file only through the blocks it touches *)
+Definition touches (k off len : N) : Prop := 0 < len /\ off / DL <= k <= (off + len - 1) / DL.
+
+Lemma read_block_chunk r r' k : chunk_of r' k = chunk_of r k -> read_block r' k = read_block r k.
+Proof. unfold read_block, chunk_of. intros ->. reflexivity. Qed.
+
+Lemma read_loop_frame r r' k :
+  (forall j, j <> k -> chunk_of r' j = chunk_of r j) ->
+  forall fuel off len acc, ~ touches k off len ->
+    read_loop fuel r' off len 0 acc = read_loop fuel r off len 0 acc.
+Proof.
+  intros Hsame. induction fuel as [|f IH]; intros off len acc Hnt; [reflexivity|].
+  cbn [read_loop].
+  destruct (N.eqb_spec len 0) as [|Hl]; [reflexivity|].
+  replace ((off mod DL =? 0) && (BL <=? 0)) with false
+    by (rewrite BL_val; cbn; symmetry; apply andb_false_r).
+  assert (Hk : off / DL <> k).
+  { intros <-. apply Hnt. split; [lia|]. split; [lia|].
+    apply N.div_le_mono; [rewrite DL_val; lia|lia]. }
+  rewrite (read_block_chunk r r' (off / DL) (Hsame _ Hk)).
+  destruct (read_block r (off / DL)) as [e b].
+  destruct (e =? E_OK); [|reflexivity].
+  destruct (lenN (b_data b) <=? off mod DL) eqn:Hle; [reflexivity|].
+  apply IH.
+  (* the remaining range is inside the old one *)
+  set (nb := lenN (take len (drop (off mod DL) (b_data b)))).
+  assert (Hnb : nb <= len) by (unfold nb; rewrite lenN_take; lia).
+  assert (Hnb0 : 0 < nb).
+  { unfold nb. rewrite lenN_take, lenN_drop. apply N.leb_gt in Hle. lia. }
+  intros [Hl' [H1 H2]]. apply Hnt. split; [lia|]. split.
+  - etransitivity; [|exact H1]. apply N.div_le_mono; [rewrite DL_val; lia|lia].
+  - etransitivity; [exact H2|]. apply N.div_le_mono; [rewrite DL_val; lia|lia].
+Qed.
+
+Lemma read_at_frame r r' k off len cap :
+  (forall j, j <> k -> chunk_of r' j = chunk_of r j) -> ~ touches k off len ->
+  read_at r' off len cap = read_at r off len cap.
+Proof.
+  intros Hs Hnt. rewrite (inplace_equiv_lemma r'), (inplace_equiv_lemma r).
+  unfold read_at. apply read_loop_frame with (k := k); assumption.
+Qed.
+
+(* Scrub: if every block before k still verifies, Scrub stops at k with corruption *)
+Lemma scrub_loop_burst r' k :
+  fst (read_block r' k) = E_CORRUPT ->
+  (forall j, j < k -> fst (read_block r' j) = E_OK) ->
+  forall fuel j bytes, (N.to_nat (k - j) < fuel)%nat -> j <= k ->
+    snd (scrub_loop fuel r' j bytes) = E_CORRUPT.
+Proof.
+  intros Hk Hbefore. induction fuel as [|f IH]; intros j bytes Hf Hj; [lia|].
+  cbn [scrub_loop].
+  destruct (N.eq_dec j k) as [->|Hne].
+  - destruct (read_block r' k) as [e b]. cbn [fst] in Hk. subst e. reflexivity.
+  - assert (Hjk : j < k) by lia. specialize (Hbefore j Hjk).
+    destruct (read_block r' j) as [e b]. cbn [fst] in Hbefore. subst e.
+    change (E_OK =? E_EOF) with false. change (E_OK =? E_OK) with true. cbn iota.
+    apply IH; lia.
+Qed.
+
+Lemma chunk_nonempty_bound r k : 0 < lenN (chunk_of r k) -> k <= lenN r / BL.
+Proof.
+  unfold chunk_of, raw_read. rewrite lenN_take, lenN_drop. intros H.
+  assert (Hlt : BL * k < lenN r) by (rewrite HL_val, BL_val in *; lia).
+  apply N.div_le_lower_bound; [rewrite BL_val; lia|lia].
+Qed.
+
+Lemma detects_burst_lemma :
+  forall r r' k, sound_block r k -> burst_in_block r r' k ->
+    (* reads that start in the altered block: corruption, no bytes *)
+    (forall off len cap, 0 < len -> off / DL = k -> read_at r' off len cap = ([], E_CORRUPT)) /\
+    (* the block itself never verifies, on either path *)
+    fst (read_block r' k) = E_CORRUPT /\ read_block_inplace r' k = (E_CORRUPT, []) /\
+    (* reads that do not touch it are unaffected *)
+    (forall off len cap, ~ touches k off len -> read_at r' off len cap = read_at r off len cap) /\
+    (* Scrub reports corruption (the blocks before k are untouched, so they verify iff they did) *)
+    ((forall j, j < k -> fst (read_block r j) = E_OK) -> snd (scrub r') = E_CORRUPT).
+Proof.
+  intros r r' k Hs Hb.
+  destruct (read_block_burst r r' k Hs Hb) as [H1 H2].
+  repeat split.
+  - intros. eapply read_at_burst_first; eassumption.
+  - exact H1.
+  - exact H2.
+  - intros. apply read_at_frame with (k := k); [apply Hb|assumption].
+  - intros Hbefore. unfold scrub. apply scrub_loop_burst with (k := k).
+    + exact H1.
+    + intros j Hj. rewrite (read_block_chunk r r' j); [apply Hbefore, Hj|]. apply Hb. lia.
+    + pose proof (burst_block_check r r' k Hs Hb) as [Hl _]. cbn zeta in Hl.
+      assert (k <= lenN r' / BL) by (apply chunk_nonempty_bound; rewrite CL_val in Hl; lia).
+      revert H. generalize (lenN r' / BL). intros q Hq. lia.
+    + apply N.le_0_l.
+Qed.
+
+(* non-vacuity of the burst hypotheses: a 3-byte file with bit 1 of byte 1 flipped by the model's own tamper op *)
+Definition ex_r : list byte := [1; 2; 3] ++ le32 (crc32c [1; 2; 3]).
+Definition ex_r' : list byte := tamper_xor ex_r 9 1.
+
+Example burst_hyps_inhabited : sound_block ex_r 0 /\ burst_in_block ex_r ex_r' 0.
+Proof.
+  split; [|split; [|split]].
+  - exists [1; 2; 3]. split; [discriminate|]. vm_compute. reflexivity.
+  - intros j Hj. unfold chunk_of, raw_read.
+    assert (Hl : lenN ex_r = 7) by (vm_compute; reflexivity).
+    assert (Hl' : lenN ex_r' = 7) by (vm_compute; reflexivity).
+    rewrite !drop_all; [reflexivity| |]; rewrite ?Hl, ?Hl', HL_val, BL_val; lia.
+  - exists (repeat false 9 ++ [true] ++ repeat false 46). split; [|split].
+    + exists 9%nat, [true], 46%nat. repeat split. cbn. lia.
+    + vm_compute. reflexivity.
+    + vm_compute. reflexivity.
+  - vm_compute. repeat constructor.
+Qed.
